@@ -1243,9 +1243,13 @@ impl<const MIN_ALIGN: usize> Bump<MIN_ALIGN> {
                         // only allocation in this chunk.
                         //
                         // Because this is the only allocation in this chunk,
-                        // we can reset the chunk's bump finger to the start of
-                        // the chunk.
-                        current_ptr.set(current_footer_p.as_ref().data);
+                        // we can reset the chunk's bump finger to the end of
+                        // the chunk (bump allocation goes downwards), making
+                        // the whole chunk available again.
+                        current_ptr.set(NonNull::new_unchecked(round_mut_ptr_down_to(
+                            current_footer_p.cast::<u8>().as_ptr(),
+                            MIN_ALIGN,
+                        )));
                     }
                 }
                 //SAFETY:
@@ -1351,9 +1355,13 @@ impl<const MIN_ALIGN: usize> Bump<MIN_ALIGN> {
                         // only allocation in this chunk.
                         //
                         // Because this is the only allocation in this chunk,
-                        // we can reset the chunk's bump finger to the start of
-                        // the chunk.
-                        current_ptr.set(current_footer_p.as_ref().data);
+                        // we can reset the chunk's bump finger to the end of
+                        // the chunk (bump allocation goes downwards), making
+                        // the whole chunk available again.
+                        current_ptr.set(NonNull::new_unchecked(round_mut_ptr_down_to(
+                            current_footer_p.cast::<u8>().as_ptr(),
+                            MIN_ALIGN,
+                        )));
                     }
                 }
                 //SAFETY:
